@@ -41,9 +41,9 @@ def Good (f : Feature ν) : Prop :=
 theorem mk_id (f : Feature ν) (i : Nat) : (mk f i).id = i := by
   unfold mk; split <;> rfl
 
-theorem fill_good (f : Feature ν) (i : Nat) (h : Good f) : fillFromFeature f i = .added (mk f i) := by
+theorem fill_good (f : Feature ν) (i : Nat) (h : Good f) : fillFromFeatureRaw f i = .added (mk f i) := by
   obtain ⟨hw, hi, _, _⟩ := h
-  unfold fillFromFeature mk
+  unfold fillFromFeatureRaw mk
   cases hg : f.geom with
   | point c => rfl
   | lineString cs => rfl
@@ -129,11 +129,12 @@ theorem valid_mk (f : Feature ν) (i : Nat) (h : Good f) : valid (mk f i) = true
   | multiPoint cs => rfl
   | multiLineString ls => rfl
 
-theorem fillFrom_good : ∀ (fs : List (Feature ν)) (k : Nat), (∀ f ∈ fs, Good f) → fillFrom fs k = some (imp fs k)
+theorem fillFrom_good : ∀ (fs : List (Feature ν)) (k : Nat), (∀ f ∈ fs, Good (stored f)) →
+    fillFrom fs k = some (imp (fs.map stored) k)
   | [], _, _ => rfl
   | f :: fs, k, h => by
-    simp only [fillFrom, fill_good f k (h f (by simp)),
-      fillFrom_good fs (k + 1) (fun g hg => h g (by simp [hg])), imp]
+    simp only [fillFrom, fillFromFeature, fill_good (stored f) k (h f (by simp)),
+      fillFrom_good fs (k + 1) (fun g hg => h g (by simp [hg])), imp, List.map_cons]
 
 theorem applyAll_good : ∀ (fs : List (Feature ν)) (k : Nat), (∀ f ∈ fs, Good f) →
     applyAll (imp fs k) = (imp fs k, true)
@@ -269,15 +270,34 @@ theorem count_imp : ∀ (fs : List (Feature ν)) (k j : Nat), j < fs.length →
     exact count_imp fs (k + 1) j hj'
 
 theorem imp_faithful (fs : List (Feature ν)) (j : Nat) (hj : j < fs.length) (h : ∀ f ∈ fs, Good f) :
-    importedFaithfully (imp fs 0) fs[j] j = true := by
+    importedFaithfullyRaw (imp fs 0) fs[j] j = true := by
   obtain ⟨t, g, he, ht, ho, hp⟩ := faithful_mk fs[j] j (h _ (List.getElem_mem hj))
   have hf := findByID_imp fs 0 j hj t (by simpa using ht)
   have hc := count_imp fs 0 j hj
   simp only [Nat.zero_add] at hf hc
-  unfold importedFaithfully
+  unfold importedFaithfullyRaw
   simp only [he, hf, ho, hc, beq_self_eq_true, Bool.true_and, Bool.and_true]
   apply List.all_eq_true.2
   intro kv hkv
   simp [hp kv hkv]
+
+/-! ### stored property keys never clash with the geometry tags -/
+
+theorem storedKey_ne (k : String) : (storedKey k == pointTag) = false ∧ (storedKey k == pathTag) = false := by
+  unfold storedKey
+  by_cases h1 : k = pointTag
+  · subst h1; decide
+  · by_cases h2 : k = pathTag
+    · subst h2; decide
+    · simp [h1, h2]
+
+theorem reservedClash_stored (f : Feature ν) : reservedClash (stored f) = false := by
+  unfold reservedClash stored
+  cases f.geom <;> simp [List.any_map, Function.comp_def, (storedKey_ne _).1, (storedKey_ne _).2]
+
+theorem good_stored (f : Feature ν) (hw : wellShaped f.geom = true) (hi : importable f.geom = true)
+    (hn : (f.props.map fun kv => storedKey kv.1).Nodup) : Good (stored f) := by
+  refine ⟨hw, hi, reservedClash_stored f, ?_⟩
+  simpa [stored, List.map_map, Function.comp_def] using hn
 
 end B6.Lemmas.GeoJSON
